@@ -105,6 +105,11 @@ FIXED += [
 ]
 
 OPEN = [
+    {"id": "K04", "property": "C19", "signature": "C19/rows/member/same-name-collapsed",
+     "what": "a zip archive with two members of the same name (`same.txt` 5 bytes, `other.txt`, `same.txt` 8 bytes; `unzip -l` lists "
+             "three): fselect reports `same.txt` once - the zip crate keeps the members of an archive in a map keyed by their name, "
+             "so the earlier one is gone before fselect sees it; not repairable inside fselect",
+     "pinned_case": {"kind": "same-names"}},
     {"id": "K03", "property": "C20", "signature": "C20/git/under-ignore/negation-inside-excluded-directory",
      "what": "gitignore with the search root inside an excluded directory: `.gitignore` = `*.log`, `!a.log`, root `a3.log/` (a directory): "
              "git cannot re-include a file whose parent directory is excluded, fselect lists `a3.log/a.log` - libgit2's "
